@@ -978,9 +978,13 @@ class ExprToAccessC(ExprReducer):
             curobj = CGenArray(cgenobj, element_num,
                                void_type.align,
                                void_type.size)
-            if field_offset == 0:
+            if field_offset == 0 and not (
+                    deref and
+                    isinstance(base_type.objtype,
+                               (ObjCArray, ObjCStruct, ObjCUnion))):
                 # We point to the start of the sub object,
-                # return it directly
+                # return it directly (a dereference needs to go down to the
+                # final object)
                 return set([curobj])
             new_type = self.cgen_access(curobj, base_type.objtype,
                                         field_offset, deref, lvl + 1)
@@ -1089,11 +1093,9 @@ class ExprToAccessC(ExprReducer):
         found = set()
         for subcgenobj in node.ptr.info:
             if isinstance(subcgenobj.ctype, ObjCArray):
-                nobj = CGenArray(subcgenobj, 0,
-                                 void_type.align,
-                                 void_type.size)
-                target = nobj.ctype.objtype
-                for finalcgenobj in self.cgen_access(nobj, target, 0, True, lvl):
+                for finalcgenobj in self.cgen_access(subcgenobj,
+                                                     subcgenobj.ctype,
+                                                     0, True, lvl):
                     assert isinstance(finalcgenobj.ctype, ObjCPtr)
                     if self.enforce_strict_access and finalcgenobj.ctype.objtype.size != node.expr.size // 8:
                         continue
